@@ -471,6 +471,54 @@ Section Ident.
     - intros H. apply H. reflexivity.
   Qed.
 
+  Lemma matches_b_iff flt n : matches_b flt n = true <-> matches flt n.
+  Proof.
+    unfold matches_b, matches. rewrite forallb_forall. split.
+    - intros H i v Hin. apply ostr_eqb_eq. apply (H (i, v) Hin).
+    - intros H [i v] Hin. apply ostr_eqb_eq. apply (H i v Hin).
+  Qed.
+
+  Lemma find_event_b_iff (pre : trace) e : find_event_b pre e = true <-> find_event pre e.
+  Proof.
+    unfold find_event_b, find_event.
+    destruct (e_op e) as [| | | |u flt| | | | | | | |]; try (split; [intros _; intros; discriminate|reflexivity]).
+    split.
+    - intros H u0 flt0 E. inversion E; subst u0 flt0.
+      destruct (decoded (fw (e_pre e) u)) as [all|]; [|discriminate].
+      exists all. split; [reflexivity|]. apply out_eqb_eq. exact H.
+    - intros H. destruct (H u flt eq_refl) as (all & Hd & Ho). rewrite Hd. apply out_eqb_eq. exact Ho.
+  Qed.
+
+  Lemma lookup_event_b_iff (pre : trace) e : lookup_event_b pre e = true <-> lookup_event pre e.
+  Proof.
+    unfold lookup_event_b, lookup_event.
+    destruct (e_op e) as [| | | | |u s q| | | | | | |]; try (split; [intros _; intros; discriminate|reflexivity]).
+    destruct (e_out e) as [|n| | |]; try (split; [intros _; intros; discriminate|reflexivity]).
+    rewrite !andb_true_iff, ostr_eqb_eq, !same_qb_iff. split.
+    - intros [[[H1 H2] H3] H4] u0 s0 q0 n0 E1 E2. inversion E1; inversion E2; subst.
+      split; [apply mem_In; exact H1|]. auto.
+    - intros H. destruct (H u s q n eq_refl eq_refl) as (H1 & H2 & H3 & H4).
+      repeat split; try assumption. apply mem_In. exact H1.
+  Qed.
+
+  Lemma effect_event_b_iff (pre : trace) e : effect_event_b pre e = true <-> effect_event pre e.
+  Proof.
+    unfold effect_event_b, effect_event.
+    destruct (e_op e) as [| | | | | | | | | |n newid enc term| |];
+      try (split; [intros _; intros; discriminate|reflexivity]).
+    split.
+    - intros H n0 newid0 enc0 term0 u x E Hl Hin Hw. inversion E; subst n0 newid0 enc0 term0. clear E.
+      rewrite Hl, Hw in H. apply mem_In in Hin. rewrite Hin in H. cbn [negb orb] in H.
+      destruct (e_out e) as [|n'| | |]; try discriminate.
+      apply andb_true_iff in H as [H1 H2]. exists n'. split; [reflexivity|].
+      split; [apply ostr_eqb_eq; exact H1|apply (list_eqb_eq String.eqb String.eqb_eq); exact H2].
+    - intros H. destruct (lookup_opt (txt n) (e_pre e)) as [u|] eqn:Hl; [|reflexivity].
+      destruct (wanted n newid enc term) as [x|] eqn:Hw; [|reflexivity].
+      destruct (mem (code n) (fw (e_pre e) u)) eqn:Hm; [|reflexivity]. cbn [negb orb].
+      apply mem_In in Hm. destruct (H n newid enc term u x eq_refl Hl Hm Hw) as (n' & -> & H1 & H2).
+      apply andb_true_iff. split; [apply ostr_eqb_eq; exact H1|apply (list_eqb_eq String.eqb String.eqb_eq); exact H2].
+  Qed.
+
   (* ---------------------------------------------------------------- the whole identifier spec *)
   Theorem ident_spec_b_iff tr : ident_spec_b cfg is_user tr = true <-> ident_spec cfg is_user tr.
   Proof.
@@ -480,7 +528,8 @@ Section Ident.
       (all_pairs_reflect _ _ tr reverse_pair_b_iff), (all_events_reflect _ _ tr valued_event_b_iff),
       (all_events_reflect _ _ tr transient_event_b_iff), (all_events_reflect _ _ tr manage_event_b_iff),
       (all_events_reflect _ _ tr consistent_event_b_iff), (all_events_reflect _ _ tr issued_event_b_iff),
-      (all_events_reflect _ _ tr findlocal_event_b_iff).
+      (all_events_reflect _ _ tr findlocal_event_b_iff), (all_events_reflect _ _ tr find_event_b_iff),
+      (all_events_reflect _ _ tr lookup_event_b_iff), (all_events_reflect _ _ tr effect_event_b_iff).
     pose proof (wf_b_iff tr) as Hw. destruct (wf_b cfg is_user tr).
     - split.
       + intros [H|H]; [discriminate|]. intros _. tauto.
